@@ -67,7 +67,7 @@ def build_ir(s):
 DEFAULT_POOL = [["v", None], ["v", "None"], ["v", "(None)"], ["v", NONESTR], ["v", 0], ["v", 5], ["v", -1], ["v", 2.5],
                 ["v", True], ["v", "mnist"], ["v", ""], ["v", "```np.zeros(1)```"],
                 ["obj", "[]"], ["obj", "[1, 2]"], ["obj", "{}"], ["obj", "{'a': 1}"], ["obj", "(1, 2)"], ["obj", "()"],
-                ["obj", "set()"], ["obj", "b'x'"], ["obj", "1j"], ["obj", "Ellipsis"], ["obj", "(1, (2, 3))"], ["obj", "{1, 2}"], ["obj", "(1, [2])"], ["obj", "{'a:b'}"], ["obj", "{'k': 'a:b'}"],
+                ["obj", "set()"], ["obj", "b'x'"], ["obj", "1j"], ["obj", "Ellipsis"], ["obj", "(1, (2, 3))"], ["obj", "{1, 2}"], ["obj", "(1, [2])"], ["obj", "('[', 2)"], ["obj", "(1, {2: 3})"], ["obj", "{'a:b'}"], ["obj", "{'k': 'a:b'}"],
                 ["ast", "np.zeros(1)"], ["ast", "5"], ["ast", "None"], ["ast", "'None'"], ["ast", "[1]"], ["ast", "x"]]
 BODIES = ["pass", "x = 1\nreturn x", "return 5", "print('hi')\nreturn (a, b)", "if a:\n    return 1\nreturn 2"]
 
@@ -88,6 +88,8 @@ def spec_param(rng, tags):
         p["default"] = ["v", p0["default"]]
     elif r < 0.8:
         p["default"] = rng.choice(DEFAULT_POOL)
+    elif r < 0.805:
+        p["default"] = ["obj", "(frozenset({1}), 2)"]      # hashability not decidable from the repr: the model declines
     return p
 
 
